@@ -1,7 +1,7 @@
 #!/bin/sh
 # tools/reseed.sh [seed-name...]  — regression drill: every kept seed (seeded/<name>/patch.diff) is applied to a scratch
 # worktree of /repo's HEAD and the checks its meta.json names under caught_by are run against it (quick tier).
-# Prints one line per seed: CAUGHT / MISSED / NOAPPLY (the code the patch touches has changed since).
+# Prints one line per seed: caught / MISSED (+ whether the seed's own demo still fails) / NOAPPLY (the code the patch touches has changed since).
 cd /verif || exit 2
 names="$@"; [ -z "$names" ] && names=$(ls seeded)
 for name in $names; do
@@ -15,6 +15,14 @@ for name in $names; do
       VERIF_REPO=$wt VF_EVIDENCE_DIR=$out/ev VF_REPLAY_DIR=$out/rp VF_WORKERS=${VF_WORKERS:-8} timeout 1800 ./check $id --tier quick > $out/$id.log 2>&1
       if grep -q "^VIOLATION property=$id" $out/$id.log; then res="$res $id:caught"; else res="$res $id:MISSED"; fi
     done
+    case "$res" in *MISSED*)
+      # does the seeded change still break the property on today's tree? run the seed's own demo (it asserts where py7zr comes from)
+      want=$(grep -o 'startswith("/tmp/[^"]*")' seeded/$name/demo.py | head -1 | sed 's/startswith("//; s/")//')
+      dwt=${want:-/tmp/reseed-demo}-rs; dwt=$(echo $dwt | sed 's:/$::')
+      git -C /repo worktree add -q --detach $dwt HEAD && (cd $dwt && git apply --3way /verif/seeded/$name/patch.diff >/dev/null 2>&1; cp /verif/seeded/$name/demo.py demo_seed.py; PYTHONPATH=$dwt timeout 900 /venv/bin/python demo_seed.py >/dev/null 2>&1; echo $? > /tmp/reseed-demo.rc)
+      git -C /repo worktree remove --force $dwt
+      if [ "$(cat /tmp/reseed-demo.rc)" = "0" ]; then res="$res NEUTRALISED(the seed's demo passes with the patch on today's tree: a later repair made the change harmless)"; else res="$res demo-still-fails"; fi ;;
+    esac
     echo "$name$res"
   else
     echo "$name NOAPPLY"
